@@ -129,7 +129,25 @@ def prof_layout(g, n):
         points = sorted({0, size, max(size - 1, 0), size + 1, size // 2} | {g.r.randint(0, size + 1) for _ in range(4)})
         fields, names = [], g.r.sample(FIELD_NAMES, nf)
         mode = g.r.random()
-        if 0.35 <= mode < 0.7 and size >= 2:
+        if mode >= 0.88:
+            # otherwise valid fields plus ONE field at the size boundary, in every form a front end accepts
+            fields = [f for f in g.partition_fields(max(size - 2, 0), max_fields=3, conv_p=0.0) if f["base"] != "bool" or "end" in f]
+            b = g.pick([size - 1, size, size, size, size + 1])
+            shape = g.pick(["bare_bool", "bare_bool", "bool_range", "uint_1", "uint_cross", "empty"])
+            if b < 0:
+                b = 0
+            nm = "edge"
+            if shape == "bare_bool":
+                fields.append({"name": nm, "base": "bool", "start": b})
+            elif shape == "bool_range":
+                fields.append({"name": nm, "base": "bool", "start": b, "end": b + 1})
+            elif shape == "uint_1":
+                fields.append({"name": nm, "base": g.pick(["uint", "int"]), "start": b, "end": b + 1})
+            elif shape == "uint_cross":
+                fields.append({"name": nm, "base": "uint", "start": max(b - 1, 0), "end": b + 1})
+            else:
+                fields.append({"name": nm, "base": g.pick(["uint", "bool"]), "start": b, "end": b})
+        elif 0.35 <= mode < 0.7 and size >= 2:
             # individually valid fields whose ranges touch, nest or cross
             for k in range(nf):
                 s = g.r.randint(0, size - 1)
@@ -359,7 +377,47 @@ def flip_high_bit(g, size, bo, bito, form, value, k):
     return value | (1 << (8 * (k // 8) + bit))
 
 
+def vary_order_source(g, c):
+    """Where the effective byte / bit order of the registers comes from: the register itself (with or without a
+    *different* device-wide default next to it) or the device-wide default alone."""
+    adef = c["adef"]
+    regs = [o for o in adef["objects"] if o["kind"] == "register"]
+    if not regs:
+        return c
+    mode = g.pick(["own", "own", "own_vs_default", "own_vs_default", "default_only", "mixed"])
+    if mode == "own":
+        return c
+    bos = {r.get("byte_order") for r in regs}
+    bitos = {r.get("bit_order") for r in regs}
+    if mode == "own_vs_default":
+        if len(bos) == 1 and None not in bos:
+            adef["config"]["default_byte_order"] = "BE" if "LE" in bos else "LE"
+        if len(bitos) == 1 and None not in bitos and g.chance(0.5):
+            adef["config"]["default_bit_order"] = "MSB0" if "LSB0" in bitos else "LSB0"
+    elif mode == "default_only":
+        if len(bos) == 1 and None not in bos:
+            adef["config"]["default_byte_order"] = list(bos)[0]
+            for r in regs:
+                del r["byte_order"]
+        if len(bitos) == 1 and None not in bitos and g.chance(0.5):
+            adef["config"]["default_bit_order"] = list(bitos)[0]
+            for r in regs:
+                del r["bit_order"]
+    else:
+        if len(bos) == 1 and None not in bos:
+            bo = list(bos)[0]
+            adef["config"]["default_byte_order"] = bo
+            for r in regs:
+                if g.chance(0.5):
+                    del r["byte_order"]
+    return c
+
+
 def prof_reset(g, tier):
+    return [vary_order_source(g, c) for c in _prof_reset(g, tier)]
+
+
+def _prof_reset(g, tier):
     out = []
     thorough = tier == "thorough"
     sizes = list(range(1, 129)) if thorough else [1, 2, 7, 8, 9, 12, 15, 16, 17, 24, 31, 32, 33, 63, 64, 65, 100, 127, 128]
@@ -985,6 +1043,15 @@ def cases_for(prop, tier, seed):
 
 def prof_c20(g, n):
     out = []
+    # integers at the edge of what each concrete syntax can carry (JSON u64, YAML / TOML i64, DSL u128): the same
+    # text means different things to different front ends, so the CLI must dispatch on the extension exactly
+    for syn in SYNTAXES:
+        for val, size in ((2 ** 64 - 1, 64), (2 ** 63, 64), (2 ** 63 - 1, 64), (2 ** 100, 128)):
+            reg = {"kind": "register", "name": "Wide", "address": "1", "size_bits": size, "byte_order": "LE",
+                   "reset": {"int": str(val)}, "fields": [{"name": "lo", "base": "uint", "start": 0, "end": 8}]}
+            c = case({"config": {"register_address_type": "u8"}, "objects": [reg]}, syn, "cli")
+            c["must_cli"] = True
+            out.append(c)
     for i in range(n):
         adef = common_fragment_adef(g)
         out.append(case(adef, SYNTAXES[i % 4], "cli"))
